@@ -215,7 +215,7 @@ def run_check(prop, tier):
         for nm, hs in (("detA", hs_a), ("detB", hs_a), ("detC", hs_c)):
             jobs.append((nm, {"mode": "run", "property": prop, "verif_seed": vseed, "tier": tier, "indices": mini, "worker": -1, "emit_chain": True}, hs))
         # reach probe: one small traced worker
-        jobs.append(("trace", {"mode": "run", "property": prop, "verif_seed": vseed, "tier": tier, "indices": list(range(BLOCK, BLOCK + TRACE_RUNS[prop])), "worker": -2, "trace": True}, seeds.hash_seed(vseed, prop, trace_worker)))
+        jobs.append(("trace", {"mode": "run", "property": prop, "verif_seed": vseed, "tier": tier, "indices": list(range(BLOCK, BLOCK + TRACE_RUNS[prop] * (4 if tier == "thorough" else 1))), "worker": -2, "trace": True}, seeds.hash_seed(vseed, prop, trace_worker)))
         res = run_jobs(workdir, jobs, watchdog)
 
         det = _determinism_verdict(res)
